@@ -1,6 +1,7 @@
 import ReplicatProofs.Lemmas.RateLimit
 import ReplicatProofs.Lemmas.RateLimitMulti
 import ReplicatProofs.Lemmas.RateLimitStamps
+import ReplicatProofs.Lemmas.SizeLit
 /-!
 # C20 — the bandwidth limit is respected and transparent to the data
 
@@ -330,5 +331,228 @@ theorem reads_in_order (Lr Lw : Rat) (i : Nat) (s : St2) (reads : List (Option N
 example : EvOk 1024 0 256 (.io 0 256 0 0) := by refine ⟨?_, ?_, ?_, ?_, ?_⟩ <;> decide +kernel
 example : (run 1024 (St.init 0) [.io 0 256 0 0, .io 0 256 0 0]).2.map (·.slept) = [0, 1 / 2] := by decide +kernel
 example : OneThreadOrZeroLatency [.io 0 256 0 0, .io 1 256 0 0] := Or.inr (by decide +kernel)
+
+/-! # The limit as the user writes it, and the piece sizes derived from it
+
+Model: `ReplicatModel/SizeLit.lean` (character-level `parse` following `HUMAN_SIZE_REGEX` under `re.fullmatch`,
+`bytesDec` = the `Decimal` arithmetic of `human_to_bytes` step by step, `bytes` = the exact floor, `rateLimit` =
+`_rate_limit`, `evalPiece` on the extracted piece-size expressions).  Helper lemmas: `Lemmas/SizeLit.lean`.
+
+* `parse` covers EVERY string: digits and white space are the Unicode classes of the interpreter (`Gen.decimalZeros`,
+  `Gen.spaceChars`), `size_literal_grammar` says that `parse` is exactly the declarative grammar `Spells`.
+* `bytesDec` is what the code computes for every literal; it equals the exact value under `exactGuard`
+  (coefficient · prefix · unit-coefficient < 10^28, or nothing multiplied): `size_literal_value`.  Beyond the guard the
+  28-digit context rounds, `size_literal_guard_needed` is a kernel-checked witness (the harness replays it on the real code):
+  that is why `rate_limit_option_accepts_iff_partial` carries the guard, while `rate_limit_option_accepts_iff` and
+  `rate_limit_never_below_one` hold for every string.
+-/
+section SizeLiteral
+open Replicat.SizeLit
+
+/-- **The parser is the grammar.**  A string is matched with groups `l` iff `l` is a literal (`WF`) and the string spells
+it: digits of any script, optionally `.` and at least one digit, white space, a key of `PREFIXES_TABLE`, a key of
+`UNITS_TABLE` — in this order, nothing before, nothing after (`fullmatch`). -/
+theorem size_literal_grammar (s : List Char) (l : Lit) : parse s = some l ↔ l.WF ∧ Spells s l :=
+  ⟨parse_sound, fun h => parse_complete h.1 h.2⟩
+
+/-- **Round trip.**  The canonical rendering of every literal is parsed back to exactly that literal. -/
+theorem size_literal_roundtrip (l : Lit) (h : l.WF) : parse (render l) = some l :=
+  parse_complete h (spells_render h)
+
+/-- **Value.**  Under the guard the number `human_to_bytes` returns is ⌊mantissa · prefix · unit⌋: no multiplication of
+the 28-digit context rounds, and the truncation of `int()` is the floor of the exact rational value. -/
+theorem size_literal_value (l : Lit) (hwf : l.WF) (g : exactGuard l) :
+    bytesDec l = bytes l ∧ ((bytes l : Nat) : Int) = (ratValue l).floor :=
+  ⟨bytesDec_eq_bytes hwf g, bytes_floor l⟩
+
+/-- the exact value by itself, for every literal (no guard): `bytes` is the floor of mantissa · prefix · unit -/
+theorem size_literal_exact_floor (l : Lit) :
+    ((bytes l : Nat) : Rat) ≤ ratValue l ∧ ratValue l < ((bytes l : Nat) : Rat) + 1 := by
+  have h := bytes_floor l
+  have h1 := Rat.floor_le (ratValue l)
+  have h2 := Rat.lt_floor_add_one (ratValue l)
+  rw [← h] at h1 h2
+  rw [Rat.intCast_natCast] at h1
+  rw [Rat.intCast_add, Rat.intCast_natCast] at h2
+  exact ⟨h1, h2⟩
+
+/-- **Beyond the guard the arithmetic is not exact** (kernel-checked witness, replayed on the real code by the harness):
+`0.9999999999999999999999999999999B` (31 nines) is less than one byte per second, its exact floor is 0, but
+`Decimal * 1` rounds it to 28 digits = 1 and the option is accepted with limit 1; the same digits without the `B`
+are not multiplied at all and are rejected. -/
+theorem size_literal_guard_needed :
+    let nines := List.replicate 31 '9'
+    ∃ l, parse ('0' :: '.' :: nines ++ ['B']) = some l ∧ l.WF ∧ ¬ exactGuard l ∧ bytes l = 0 ∧ bytesDec l = 1 ∧
+      rateLimit ('0' :: '.' :: nines ++ ['B']) = .ok 1 ∧ rateLimit ('0' :: '.' :: nines) = .error .notNatural := by
+  refine ⟨⟨[0], some (List.replicate 31 9), 0, none, some ('B', 1, 0)⟩, ?_⟩
+  decide +kernel
+
+/-- **Monotone.**  A literal whose exact value is not smaller never yields a smaller limit — for the exact value always,
+and for the value the code computes under the guard. -/
+theorem size_literal_monotone (l1 l2 : Lit) (h : ratValue l1 ≤ ratValue l2) :
+    bytes l1 ≤ bytes l2 ∧
+    (l1.WF → l2.WF → exactGuard l1 → exactGuard l2 → bytesDec l1 ≤ bytesDec l2) := by
+  refine ⟨bytes_mono h, fun w1 w2 g1 g2 => ?_⟩
+  rw [bytesDec_eq_bytes w1 g1, bytesDec_eq_bytes w2 g2]
+  exact bytes_mono h
+
+/-- **Acceptance (every string).**  `_rate_limit` returns `n` iff the string spells a literal whose computed value is `n`
+and `n ≥ 1`. -/
+theorem rate_limit_option_accepts_iff (s : List Char) (n : Nat) :
+    rateLimit s = .ok n ↔ ∃ l, l.WF ∧ Spells s l ∧ bytesDec l = n ∧ 1 ≤ n := by
+  unfold rateLimit
+  constructor
+  · intro h
+    cases hp : parse s with
+    | none => simp [hp] at h
+    | some l =>
+      simp only [hp] at h
+      split at h
+      · simp at h
+      · next hn =>
+        simp at h
+        obtain ⟨w, sp⟩ := parse_sound hp
+        exact ⟨l, w, sp, h, by omega⟩
+  · rintro ⟨l, w, sp, rfl, hn⟩
+    rw [parse_complete w sp]
+    have : ¬ bytesDec l < 1 := by omega
+    simp [this]
+
+/-- **Acceptance in terms of the written value** — accepted ⇔ well-formed ∧ value ≥ 1 byte/s, and then the limit is the
+floor of the value.  `_partial`: needs `exactGuard` (spelled out; `size_literal_guard_needed` shows that beyond it a value
+below one byte per second can be accepted). -/
+theorem rate_limit_option_accepts_iff_partial (s : List Char) (l : Lit) (hp : parse s = some l) (g : exactGuard l) :
+    ((∃ n, rateLimit s = .ok n) ↔ 1 ≤ ratValue l) ∧
+    (∀ n, rateLimit s = .ok n → (n : Int) = (ratValue l).floor) := by
+  have w := (parse_sound hp).1
+  have e := bytesDec_eq_bytes w g
+  have f := bytes_floor l
+  unfold rateLimit
+  simp only [hp, e]
+  constructor
+  · constructor
+    · rintro ⟨n, h⟩
+      split at h
+      · simp at h
+      · next hn =>
+        have : (1 : Int) ≤ (ratValue l).floor := by rw [← f]; omega
+        have := Rat.le_floor_iff.mp this
+        simpa using this
+    · intro h
+      have : (1 : Int) ≤ (ratValue l).floor := Rat.le_floor_iff.mpr (by simpa using h)
+      rw [← f] at this
+      have : ¬ bytes l < 1 := by omega
+      exact ⟨bytes l, by simp [this]⟩
+  · intro n h
+    split at h
+    · simp at h
+    · simp at h; rw [← h]; exact f
+
+/-- **A zero or negative limit never reaches `RateLimitedIO`.**  Whatever text the option's type function is handed, the limit
+a command gets is absent or at least 1; a sign is never part of a literal.  (argparse, which hands the text over, is trusted
+base — see `limitOfCommand` for the one quirk observed.) -/
+theorem rate_limit_never_below_one :
+    (∀ s n, rateLimit s = .ok n → 1 ≤ n) ∧
+    (∀ cli n, limitOfCommand cli = .ok (some n) → 1 ≤ n) ∧
+    (∀ s, rateLimit ('-' :: s) = .error .noMatch ∧ rateLimit ('+' :: s) = .error .noMatch) := by
+  have h1 : ∀ s n, rateLimit s = .ok n → 1 ≤ n := by
+    intro s n h
+    obtain ⟨_, _, _, _, hn⟩ := (rate_limit_option_accepts_iff s n).mp h
+    exact hn
+  refine ⟨h1, ?_, ?_⟩
+  · intro cli n h
+    unfold limitOfCommand at h
+    cases cli with
+    | none => simp at h
+    | some s =>
+      simp only at h
+      cases hr : rateLimit s with
+      | error e => simp [hr] at h
+      | ok m =>
+        simp [hr] at h
+        subst h
+        exact h1 s m hr
+  · intro s
+    have m : digitVal '-' = none ∧ '-' ≠ '.' ∧ digitVal '+' = none ∧ '+' ≠ '.' := by decide
+    simp [rateLimit, parse_nonDigit_head s m.1 m.2.1, parse_nonDigit_head s m.2.2.1 m.2.2.2]
+
+/-- the documented prefixes: decimal `k M g` = 10^3, 10^6, 10^9; binary `Ki Mi Gi` = 2^10, 2^20, 2^30; either case -/
+def documentedPrefixes : List (List Char × Nat) :=
+  [(['k'], 1000), (['K'], 1000), (['K', 'i'], 1024), (['k', 'i'], 1024),
+   (['M'], 1000 ^ 2), (['m'], 1000 ^ 2), (['M', 'i'], 1024 ^ 2), (['m', 'i'], 1024 ^ 2),
+   (['g'], 1000 ^ 3), (['G'], 1000 ^ 3), (['g', 'i'], 1024 ^ 3), (['G', 'i'], 1024 ^ 3)]
+
+/-- **Facts about the source the theorems above stand on** — regenerated by the extractor on every build and discharged
+here by `decide`: the prefix table is the documented one (as a set: the alternation of the regex is built from the table in
+whatever order it has, and `matchTail_table` re-proves for that order that every row is found again), the unit table (`B` = 1, `b` = 0.125), the regex has the shape `parse` was
+written from (built from those tables) and is used with `fullmatch` on a Unicode `str` pattern, the arithmetic context is the untouched default one (28 digits, half-even), the option is
+`-L` / `--limit-rate` with `type=_rate_limit` on the four commands, nothing but the command line supplies the limit, and the
+piece size is `max(rate_limit // (self._concurrent * 16), 1)` at all four call sites. -/
+theorem size_literal_source_facts :
+    (Gen.sizePrefixes.length = documentedPrefixes.length ∧
+      Gen.sizePrefixes.all (fun p => documentedPrefixes.contains p) = true ∧
+      documentedPrefixes.all (fun p => Gen.sizePrefixes.contains p) = true) ∧
+    Gen.sizeUnits = [('B', 1, 0), ('b', 125, 3)] ∧
+    Gen.sizeRegex = expectedRegex (Gen.sizePrefixes.map (·.1)) (Gen.sizeUnits.map (·.1)) ∧
+    Gen.sizeRegexGroups = (1, 3, 4) ∧ Gen.sizeRegexGroupCount = 3 ∧
+    Gen.sizeRegexUnicode = true ∧ Gen.sizeRegexFullmatch = true ∧ Gen.sizeNamesRebound = false ∧
+    Gen.decimalPrec = 28 ∧ Gen.decimalHalfEven = true ∧ Gen.decimalContextTouched = false ∧
+    Gen.rateLimitOptions = List.replicate 4 (["-L", "--limit-rate"], "_rate_limit", []) ∧
+    Gen.rateLimitFromFile = false ∧ Gen.rateLimitFromEnv = false ∧
+    Gen.pieceSites =
+      [("snapshot", expectedPiece), ("restore", expectedPiece),
+       ("upload_objects", expectedPiece), ("download_objects", expectedPiece)] ∧
+    Gen.sizelitSectionOk = true := by
+  decide
+
+/-- **Piece sizes.**  At each of the four call sites, for every limit and every `concurrent ≥ 1`, the piece handed to
+`upload_stream` / `download_stream` is the chunk size of the limiter theorems (`RateLimit.chunkSize`), is at least one byte,
+at most the limit (at most 1 for a zero limit), and `16 · concurrent` pieces fit into one second's allowance unless the
+piece is the one-byte floor; with `concurrent = 0` the expression raises `ZeroDivisionError`. -/
+theorem transfer_piece_bounds (site : String × List Gen.PieceTok) (hs : site ∈ Gen.pieceSites) (limit conc : Nat) :
+    (1 ≤ conc → ∃ p, evalPiece site.2 limit conc = .ok p ∧ p = RateLimit.chunkSize limit conc ∧
+        1 ≤ p ∧ p ≤ max limit 1 ∧ p * 16 * conc ≤ max limit (16 * conc)) ∧
+    (conc = 0 → evalPiece site.2 limit conc = .error .zeroDivision) := by
+  have hsite : site.2 = expectedPiece := by
+    have := size_literal_source_facts.2.2.2.2.2.2.2.2.2.2.2.2.2.2.1
+    rw [this] at hs
+    simp at hs
+    rcases hs with h | h | h | h <;> rw [h]
+  rw [hsite, evalPiece_expected]
+  constructor
+  · intro hc
+    have hne : ¬ conc * 16 = 0 := by omega
+    refine ⟨max (limit / (conc * 16)) 1, by simp [hne], ?_, ?_, ?_, ?_⟩
+    · have : Gen.rateDivisor = 16 := by decide
+      simp [RateLimit.chunkSize, this]
+    · exact Nat.le_max_right _ _
+    · apply Nat.max_le.mpr
+      exact ⟨Nat.le_trans (Nat.div_le_self _ _) (Nat.le_max_left _ _), Nat.le_max_right _ _⟩
+    · by_cases hq : 1 ≤ limit / (conc * 16)
+      · rw [Nat.max_eq_left hq]
+        have := Nat.div_mul_le_self limit (conc * 16)
+        have e : limit / (conc * 16) * 16 * conc = limit / (conc * 16) * (conc * 16) := by
+          rw [Nat.mul_assoc, Nat.mul_comm 16 conc]
+        rw [e]
+        exact Nat.le_trans this (Nat.le_max_left _ _)
+      · have : max (limit / (conc * 16)) 1 = 1 := by omega
+        rw [this]
+        have := Nat.le_max_right limit (16 * conc)
+        omega
+  · intro hc
+    simp [hc]
+
+/-! ## non-vacuity (size literals) -/
+example : (⟨[1], some [5], 0, some (['M', 'i'], 1024 ^ 2), none⟩ : Lit).WF := by decide
+example : parse ['1', '.', '5', 'M', 'i'] = some ⟨[1], some [5], 0, some (['M', 'i'], 1024 ^ 2), none⟩ := by decide +kernel
+example : rateLimit ['1', '.', '5', 'M', 'i'] = .ok 1572864 := by decide +kernel
+example : exactGuard ⟨[1], some [5], 0, some (['M', 'i'], 1024 ^ 2), none⟩ := by decide +kernel
+example : rateLimit ['1', 'K', 'i', 'b'] = .ok 128 ∧ rateLimit ['7', 'b'] = .error .notNatural ∧ rateLimit ['8', 'b'] = .ok 1 := by decide +kernel
+example : rateLimit ['1', '.'] = .error .noMatch ∧ rateLimit ['1', ' ', 'k', ' ', 'b'] = .error .noMatch ∧ rateLimit [] = .error .noMatch := by decide +kernel
+example : ratValue ⟨[0], some [5], 0, none, none⟩ ≤ ratValue ⟨[1], none, 0, none, none⟩ := by decide +kernel
+example : ("snapshot", expectedPiece) ∈ Gen.pieceSites := by decide
+example : evalPiece expectedPiece 1000 5 = .ok 12 ∧ evalPiece expectedPiece 3 5 = .ok 1 := by decide
+
+end SizeLiteral
 
 end Replicat.C20
